@@ -229,7 +229,7 @@ def nontrivial(case):
 # ---------------------------------------------------------------------- the check
 def run(ctx):
     quick = ctx.tier == "quick"
-    n_cases = 600 if quick else 12000
+    n_cases = 600 if quick else 8000
     if os.environ.get("VERIF_C06_CASES"):      # development aid (mutation self-tests)
         n_cases = int(os.environ["VERIF_C06_CASES"])
     ctx.rule = ("histories of <= ~20 calls over 1-3 initial meshes (from_arrays over float/int caller arrays incl. two meshes "
